@@ -961,7 +961,8 @@ func (c *FCtx) loopOrdinalOf(pos token.Pos) int {
 	return c.loopOrd[pos]
 }
 
-// assignedIn computes locals assigned in the body (declared outside it) and whether the heap may be written.
+// assignedIn computes locals assigned in the body (declared outside it) on paths that can reach the back edge.
+// Assignments in a block that ends in return/panic and contains no continue cannot reach the loop head again.
 func (e *Env) assignedIn(body ast.Node, extra ...ast.Node) []types.Object {
 	seen := map[types.Object]bool{}
 	var out []types.Object
@@ -978,9 +979,44 @@ func (e *Env) assignedIn(body ast.Node, extra ...ast.Node) []types.Object {
 			out = append(out, obj)
 		}
 	}
+	hasContinue := func(n ast.Node) bool {
+		found := false
+		ast.Inspect(n, func(x ast.Node) bool {
+			switch y := x.(type) {
+			case *ast.BranchStmt:
+				if y.Tok == token.CONTINUE || y.Tok == token.GOTO {
+					found = true
+				}
+			case *ast.FuncLit:
+				return false
+			}
+			return !found
+		})
+		return found
+	}
+	terminates := func(list []ast.Stmt) bool {
+		if len(list) == 0 {
+			return false
+		}
+		switch l := list[len(list)-1].(type) {
+		case *ast.ReturnStmt:
+			return true
+		case *ast.ExprStmt:
+			if call, ok := l.X.(*ast.CallExpr); ok {
+				if id, ok := call.Fun.(*ast.Ident); ok && id.Name == "panic" {
+					return true
+				}
+			}
+		}
+		return false
+	}
 	var visit func(n ast.Node) bool
 	visit = func(n ast.Node) bool {
 		switch x := n.(type) {
+		case *ast.BlockStmt:
+			if n != body && terminates(x.List) && !hasContinue(x) {
+				return false
+			}
 		case *ast.AssignStmt:
 			for _, l := range x.Lhs {
 				l = stripParens(l)
